@@ -89,7 +89,13 @@ pub fn run_case(case: &Value) -> Value {
             let sub: Vec<Value> = (&ca - &cb).iter().map(bits_of).collect();
             let addsub: Vec<Value> = (&(&ca + &cb) - &cb).iter().map(bits_of).collect();
             let addsub_cmp = ord_of((&(&ca + &cb) - &cb).cmp(&ca));
-            json!({"cmp": cmp, "eq": eq, "add": add, "sub": sub, "addsub": addsub, "addsub_cmp": addsub_cmp})
+            let subadd: Vec<Value> = (&(&ca - &cb) + &cb).iter().map(bits_of).collect();
+            let subadd_cmp = ord_of((&(&ca - &cb) + &cb).cmp(&ca));
+            // the by-value operators must agree with the by-reference ones
+            let owned_same = (ca.clone() + &cb).cmp(&(&ca + &cb)) == std::cmp::Ordering::Equal
+                && (ca.clone() - &cb).cmp(&(&ca - &cb)) == std::cmp::Ordering::Equal;
+            json!({"cmp": cmp, "eq": eq, "add": add, "sub": sub, "addsub": addsub, "addsub_cmp": addsub_cmp,
+                   "subadd": subadd, "subadd_cmp": subadd_cmp, "owned_same": owned_same})
         }
         "icost3" => {
             // law oracle on the implementation: transitivity on a triple
